@@ -48,21 +48,32 @@ Variable u : univ.
 Variable c : conf.
 Variable trans : transf.
 
-(* one iteration of the loop in _register_new_invocations *)
+(* one iteration of the loop in _register_new_invocations: an already known invocation is left untouched *)
 Definition idx_register_one (t : Z) (rid : option runner) (s : idx) (i : nat) : idx :=
-  {| recs := rset i {| rst := REGISTERED; rown := rid; rts := t |} (recs s);   (* prev record None: nothing discarded *)
-     retr := aset i 0 (retr s);
-     sidx := padd (status_code REGISTERED) i (sidx s);
-     tidx := padd (task_of u i) i (tidx s);
-     cidx := padd (call_of u i) i (cidx s);
-     aidx := aidx s; pq := pq s; graph := graph s; ish := ish s |}.
+  match rlookup i (recs s) with
+  | Some _ => s                                                               (* if id in invocation_status_record: continue *)
+  | None =>
+    {| recs := rset i {| rst := REGISTERED; rown := rid; rts := t |} (recs s);
+       retr := aset i 0 (retr s);
+       sidx := padd (status_code REGISTERED) i (sidx s);
+       tidx := padd (task_of u i) i (tidx s);
+       cidx := padd (call_of u i) i (cidx s);
+       aidx := aidx s; pq := pq s; graph := graph s; ish := ish s |}
+  end.
 
 (* clean_up_invocation; None = completed, Some e = raised *)
 Definition idx_cleanup (s : idx) (i : nat) : idx * option nat :=
   let g := mem_release i (graph s) in                        (* self.release_waiters(invocation_id) *)
-  if negb (memb i (stored (ish s)))                          (* state_backend.get_invocation raises *)
-  then ({| recs := recs s; retr := retr s; sidx := sidx s; tidx := tidx s; cidx := cidx s; aidx := aidx s;
-           pq := pq s; graph := g; ish := ish s |}, Some 4)
+  if negb (memb i (stored (ish s)))                          (* state_backend.get_invocation raises: un-index by scanning *)
+  then ({| recs := rdel i (recs s); retr := adel i (retr s);
+           sidx := match rlookup i (recs s) with
+                   | Some r => pdel (status_code (rst r)) i (sidx s)
+                   | None => sidx s
+                   end;
+           tidx := filter (fun e => negb (Nat.eqb (snd e) i)) (tidx s);
+           cidx := filter (fun e => negb (Nat.eqb (snd e) i)) (cidx s);
+           aidx := filter (fun e => negb (Nat.eqb (snd e) i)) (aidx s);
+           pq := pq s; graph := g; ish := ish s |}, None)
   else
     let ax := fold_left (fun a kv => pdel (kvcode kv) i a) (args_of u i) (aidx s) in
     match rlookup i (recs s) with
@@ -98,7 +109,7 @@ Definition idx_cands (s : idx) (tk : option nat) (sts : list status) : list nat 
   match sts with [] => base | _ => inter base (by_statuses (sidx s) sts) end.
 
 Definition idx_step (s : idx) (o : op) : idx * out :=
-  match sh_step true c (ish s) o with
+  match sh_step c (ish s) o with
   | Some (h, a) => (iwith_sh s h, a)
   | None =>
     let t := now (ish s) in
@@ -129,8 +140,12 @@ Definition idx_step (s : idx) (o : op) : idx * out :=
             aidx := fold_left (fun a kv => padd (kvcode kv) i a) (args_of u i) (aidx s);
             pq := pq s; graph := graph s; ish := ish s |}, OOk)
     | IncR i =>
-        ({| recs := recs s; retr := aset i (S (match aget i (retr s) with Some n => n | None => 0 end)) (retr s);
-            sidx := sidx s; tidx := tidx s; cidx := cidx s; aidx := aidx s; pq := pq s; graph := graph s; ish := ish s |}, OOk)
+        match aget i (retr s) with
+        | None => (s, OOk)                                  (* unknown invocation: nothing to count *)
+        | Some n =>
+            ({| recs := recs s; retr := aset i (S n) (retr s);
+                sidx := sidx s; tidx := tidx s; cidx := cidx s; aidx := aidx s; pq := pq s; graph := graph s; ish := ish s |}, OOk)
+        end
     | AutoPurge => idx_purge_loop (t - purge_after c)%Z (pq s) s
     | Wait w xs =>
         match xs with
@@ -166,21 +181,16 @@ Definition idx_step (s : idx) (o : op) : idx * out :=
     | QFilter ids sts =>
         match ids with
         | [] => (s, OIds [])
-        | _ => if forallb (fun i => match rlookup i (recs s) with Some _ => true | None => false end) ids
-               then (s, OIds (norm (filter (fun i => match rlookup i (recs s) with
-                                                     | Some r => smemb (rst r) sts
-                                                     | None => false
-                                                     end) ids)))
-               else (s, OErr 3)                            (* self.get_invocation_status(unknown) *)
+        | _ => (s, OIds (norm (filter (fun i => match rlookup i (recs s) with
+                                                | Some r => smemb (rst r) sts
+                                                | None => false              (* unknown ids do not match *)
+                                                end) ids)))
         end
     | QBlocking =>
-        let rd := ready (graph s) in
-        if forallb (fun i => match rlookup i (recs s) with Some _ => true | None => false end) rd
-        then (s, OIds (norm (filter (fun i => match rlookup i (recs s) with
-                                              | Some r => doc_available (rst r)
-                                              | None => false
-                                              end) rd)))
-        else (s, OErr 3)
+        (s, OIds (norm (filter (fun i => match rlookup i (recs s) with
+                                         | Some r => doc_available (rst r)
+                                         | None => false                     (* except KeyError: continue *)
+                                         end) (ready (graph s)))))
     | QPending =>
         let cutoff := (t - pending_limit c)%Z in
         (s, OIds (norm (filter (fun i => match rlookup i (recs s) with
